@@ -89,10 +89,19 @@ pub struct Oracle {
     dest_at_cancel: Option<Vec<u8>>,
     prompt_nak_pending: bool,
     collecting: Option<(Vec<(u64, u64)>, Vec<(u64, u64)>)>, // (expected, got)
+    since_eof_reqs: Vec<(u64, u64)>,
+    marker_since_eof: bool,
+    nak_since_eof: bool,
+    left_recv: bool,
+    now_ms: u64,
+    eof_at: Option<u64>,
+    nak_due_handled: bool,
+    last_ut_zero: bool,
     // sender
     max_sent: u64,
     last_pr: u64,
     eof_sent: bool,
+    sent_ranges: Vec<(u64, u64)>,
 }
 
 impl Oracle {
@@ -113,9 +122,18 @@ impl Oracle {
             dest_at_cancel: None,
             prompt_nak_pending: false,
             collecting: None,
+            since_eof_reqs: vec![],
+            marker_since_eof: false,
+            nak_since_eof: false,
+            left_recv: false,
+            now_ms: 0,
+            eof_at: None,
+            nak_due_handled: false,
+            last_ut_zero: false,
             max_sent: 0,
             last_pr: 0,
             eof_sent: false,
+            sent_ranges: vec![],
         }
     }
     pub fn initial(&mut self, _inds: &[Indication]) {}
@@ -173,16 +191,18 @@ impl Oracle {
                     }
                 }
                 "EOF" => {
-                    if o.inds.iter().any(|i| matches!(i, Indication::EoFRecv(_))) {
-                        if t[2] == "0" {
-                            if self.eof_size.is_none() {
-                                eof_noerror_now = true;
-                            }
-                            self.eof_size = Some(t[4].parse().unwrap());
-                        } else if !self.done && !self.cancelled_before_done {
+                    if t[2] != "0" {
+                        // the peer cancels: whatever the receiver makes of this EOF, a transfer that had not
+                        // been delivered before must not be delivered afterwards
+                        if !self.done && !self.cancelled_before_done {
                             self.cancelled_before_done = true;
                             self.dest_at_cancel = o.dest.clone();
                         }
+                    } else if o.inds.iter().any(|i| matches!(i, Indication::EoFRecv(_))) {
+                        if self.eof_size.is_none() {
+                            eof_noerror_now = true;
+                        }
+                        self.eof_size = Some(t[4].parse().unwrap());
                     }
                 }
                 "PR" => {
@@ -245,9 +265,19 @@ impl Oracle {
                     if !acked {
                         self.fail(orc, "C18", k, "NAK PDU emitted in unacknowledged mode".into());
                     }
+                    if self.eof_size.is_some() {
+                        self.nak_since_eof = true;
+                    }
                     for r in &n.segment_requests {
                         let (a, b) = (r.start_offset, r.end_offset);
                         naks_now.push((a, b));
+                        if self.eof_size.is_some() {
+                            if a == 0 && b == 0 {
+                                self.marker_since_eof = true;
+                            } else {
+                                self.since_eof_reqs.push((a, b));
+                            }
+                        }
                         if a == 0 && b == 0 {
                             if self.md_seen {
                                 self.fail(orc, "C08", k, "NAK carries the 0-0 metadata marker although metadata was received".into());
@@ -282,6 +312,16 @@ impl Oracle {
         }
         // ---- C08 exactness: after the (first, NoError) EOF with zero delay, the NAKs sent until the
         //      queue is empty are exactly the missing ranges (+ metadata marker)
+        if eof_noerror_now {
+            self.since_eof_reqs.clear();
+            self.marker_since_eof = false;
+            self.nak_since_eof = false;
+            self.eof_at = Some(self.now_ms);
+            let d = match self.cfg.nak {
+                NakProcedure::Immediate(d) | NakProcedure::Deferred(d) => d,
+            };
+            self.nak_due_handled = d.is_zero();
+        }
         if eof_noerror_now && acked {
             let delay_zero = match self.cfg.nak {
                 NakProcedure::Immediate(d) | NakProcedure::Deferred(d) => d.is_zero(),
@@ -307,6 +347,41 @@ impl Oracle {
                 }
             } else {
                 self.collecting = None;
+            }
+        }
+        // ---- C08: no missing byte is left out. Once the EOF is in, whenever the receiver has sent at least one
+        //      NAK and has nothing more to send, everything still missing (and the metadata, if missing)
+        //      must have been asked for since the EOF.
+        if o.inds.iter().any(|i| matches!(i, Indication::Finished(_) | Indication::Abandon(_))) || t[0] == "CANCEL" || t[0] == "ABANDON" {
+            self.left_recv = true;
+        }
+        if t[0] == "ADV" {
+            self.now_ms += t[1].parse::<u64>().unwrap();
+        }
+        if t[0] == "TIMEOUT" && self.last_ut_zero {
+            if let Some(at) = self.eof_at {
+                let d = match self.cfg.nak {
+                    NakProcedure::Immediate(d) | NakProcedure::Deferred(d) => d.as_millis() as u64,
+                };
+                if self.now_ms >= at + d {
+                    self.nak_due_handled = true;
+                }
+            }
+        }
+        self.last_ut_zero = o.ut == std::time::Duration::ZERO && o.st == TransactionState::Active;
+        if t[0] == "SEND" && acked && (self.nak_since_eof || self.nak_due_handled) && !self.left_recv && !o.hp && o.st == TransactionState::Active {
+            if let Some(fs) = self.eof_size {
+                let missing = complement(&norm(&self.held), 0, fs);
+                let asked = norm(&self.since_eof_reqs);
+                for (a, b) in &missing {
+                    if !complement(&asked, *a, *b).is_empty() {
+                        self.fail(orc, "C08", k, format!("bytes ({a},{b}) are missing but no NAK since the EOF asked for them (asked: {:?})", asked));
+                        break;
+                    }
+                }
+                if !self.md_seen && !self.marker_since_eof {
+                    self.fail(orc, "C08", k, "the metadata is missing but no NAK since the EOF asked for it".into());
+                }
             }
         }
         // ---- Finished indications
@@ -391,6 +466,7 @@ impl Oracle {
                         self.fail(orc, "C07", k, format!("file data PDU ({off},{len}) does not carry the source file's bytes"));
                     }
                     self.max_sent = self.max_sent.max(off + len);
+                    self.sent_ranges.push((off, off + len));
                     if !acked && self.eof_sent {
                         self.fail(orc, "C18", k, "file data sent after EOF in unacknowledged mode".into());
                     }
@@ -408,6 +484,13 @@ impl Oracle {
                 PDUPayload::Directive(Operations::EoF(e)) => {
                     if e.condition == Condition::NoError && (e.file_size != flen || e.checksum != ref_checksum(&self.cfg.file, self.cfg.ck)) {
                         self.fail(orc, "C07", k, format!("EOF states size {} checksum {} but the file has size {} checksum {}", e.file_size, e.checksum, flen, ref_checksum(&self.cfg.file, self.cfg.ck)));
+                    }
+                    if !self.eof_sent && e.condition == Condition::NoError {
+                        // the first pass must have tiled the whole file before the EOF is sent
+                        let missing = complement(&norm(&self.sent_ranges), 0, flen);
+                        if !missing.is_empty() {
+                            self.fail(orc, "C07", k, format!("EOF sent although the first pass never transmitted the bytes {:?}", missing));
+                        }
                     }
                     if !self.eof_sent && !acked && self.cfg.closure && o.st == TransactionState::Terminated {
                         self.fail(orc, "C18", k, "unacknowledged sender with closure ended right after sending EOF".into());
